@@ -85,6 +85,8 @@ type Case struct {
 	// application reuses: after the Renderer under test was built from it, the
 	// element is changed and another Renderer is built from the same slice.
 	SharedSlice bool `json:"options_slice_reused,omitempty"`
+	// Env: "" (development, the default), production, test.
+	Env string `json:"env,omitempty"`
 }
 
 func (c Case) value() interface{} {
@@ -133,6 +135,17 @@ func (c Case) raw() string {
 }
 
 func checkCase(c Case) (out evid.Outcome) {
+	// what is rendered does not depend on the mode the application runs in
+	switch c.Env {
+	case "production":
+		flamego.SetEnv(flamego.EnvTypeProd)
+	case "test":
+		flamego.SetEnv(flamego.EnvTypeTest)
+	}
+	defer flamego.SetEnv(flamego.EnvTypeDev)
+	if c.Env != "" {
+		out.Classes = append(out.Classes, "env:"+c.Env)
+	}
 	f := flamego.NewWithLogger(io.Discard)
 	var renderer flamego.Handler
 	charset, jsonIndent, xmlIndent := "utf-8", "", ""
@@ -542,6 +555,7 @@ func genCase(t *rapid.T) Case {
 	}
 	c.Which = rapid.IntRange(0, c.After-1).Draw(t, "which")
 	c.Outer = c.At != "use" && rapid.IntRange(0, 3).Draw(t, "outer") == 0
+	c.Env = []string{"", "", "production", "test"}[rapid.IntRange(0, 3).Draw(t, "env")]
 	if rapid.IntRange(0, 3).Draw(t, "opts") > 0 {
 		c.Opts = &flamego.RenderOptions{
 			Charset:    []string{"", "", "ISO-8859-1", "gbk", "ascii", "shift_jis", "euc-kr", "tis-620", "utf-16", "charset", "hz-gb-2312"}[rapid.IntRange(0, 10).Draw(t, "charset")],
